@@ -180,7 +180,7 @@ def diagonalize_form(bilinear_form,
 
             sort_indices[n_eigs < 0] = -1 * flip[n_eigs < 0]
             sort_indices[n_eigs > 0] = flip[n_eigs > 0]
-            sort_indices[n_eigs == 0] == 2
+            sort_indices[n_eigs == 0] = 2
 
             order = np.argsort(sort_indices, axis=-1)
         if reverse:
